@@ -368,7 +368,9 @@ def check(run, plugin, args):
     if hasattr(plugin, 'setup'):
         plugin.setup(run)
     budget = args.budget or plugin.BUDGET[tier]
-    deadline = run.t0 + plugin.TIME_LIMIT[tier] if hasattr(plugin, 'TIME_LIMIT') else None
+    # the time limit bounds the generated stream only: it starts after the Lean stage (whose first run after a restore
+    # loads Mathlib from a cold cache and can take a minute) and after the plugin's setup
+    deadline = time.time() + plugin.TIME_LIMIT[tier] if hasattr(plugin, 'TIME_LIMIT') else None
 
     def one(case, origin):
         if not driver_ok:
